@@ -96,7 +96,8 @@ class AnnealTap:
             before = dict(betas=[float(b) for b in chain.betas], S=[float(s) for s in self_._S],
                           t=chain.iteration // chain.swap_interval, nu=float(self_._nu), tau=float(self_._tau))
             try:
-                before['ars'] = [float(a) for a in chain.temperature_acceptance[:, -1]]
+                row = (chain.iteration - chain.lastclear - 1) // chain.swap_interval     # the row the sweep just wrote
+                before['ars'] = [float(a) for a in numpy.array(chain._temperature_acceptance.data['acceptance_ratio'][row]).reshape(-1)]
             except Exception as e:        # noqa
                 before['ars_error'] = repr(e)
             r = tap.o_call(self_, chain)
